@@ -6,5 +6,5 @@ fn main() {
     let mut m = Machine::build(&w, false);
     let end = run_eager(&mut m, StopSpec { checks: 2, max_polls: 10000 });
     println!("end = {end:?}");
-    for op in &omaha_verif::engine::lock(&w).log { println!("{op:?}"); }
+    for op in omaha_verif::engine::lock(&w).log.iter() { println!("{op:?}"); }
 }
